@@ -273,6 +273,8 @@ impl<'a> MetricFormatter<'a> {
 
     pub(crate) fn format(&self) -> String {
         let size_hint = self.size_hint();
+        #[cfg(cadence_verif)]
+        crate::verif::value("fmt.size_hint", size_hint as u64);
         let mut metric_string = String::with_capacity(size_hint);
         self.write_base_metric(&mut metric_string);
         self.write_sampling_rate(&mut metric_string);
